@@ -23,9 +23,12 @@ Acc(G, e) == e \notin G.rej
 AccStep(G, u, v) == \E k \in 1..Len(GList(G, u)) :
                        GList(G, u)[k][1] = v /\ <<u, v, GList(G, u)[k][2]>> \notin G.rej
 
-RECURSIVE Close(_, _)
-Close(G, S) == LET T == S \cup {v \in Nodes : \E u \in S : AccStep(G, u, v)}
-               IN  IF T = S THEN S ELSE Close(G, T)
+\* successor sets are computed once per graph view and shared by the closures
+SuccMap(G) == [u \in Nodes |-> {v \in Nodes : AccStep(G, u, v)}]
+RECURSIVE CloseM(_, _)
+CloseM(sm, S) == LET T == S \cup UNION {sm[u] : u \in S}
+                 IN  IF T = S THEN S ELSE CloseM(sm, T)
+Close(G, S)     == CloseM(SuccMap(G), S)
 Reach(G, r)     == Close(G, {r})
 Succ(G, r)      == {v \in Nodes : AccStep(G, r, v)}
 ReachPlus(G, r) == Close(G, Succ(G, r))            \* by one or more accepted edges
@@ -114,8 +117,10 @@ IsDfsPostorder(G, r, s) ==
 \* the consequence spelled out in C10 (used alone on graphs too large for PostSim)
 PostorderNecessary(G, r, s) ==
   /\ Len(s) >= 1 /\ s[Len(s)] = r /\ NoRepeat(s) /\ SeqSet(s) = Reach(G, r)
-  /\ \A a \in 1..Len(s), b \in 1..Len(s) :
-        (AccStep(G, s[a], s[b]) /\ s[a] \notin Reach(G, s[b])) => b < a
+  /\ LET sm == SuccMap(G)
+         R == [u \in SeqSet(s) |-> CloseM(sm, {u})] IN
+     \A a \in 1..Len(s), b \in 1..Len(s) :
+        (AccStep(G, s[a], s[b]) /\ s[a] \notin R[s[b]]) => b < a
 
 \* search_edges: in the order of search_nodes exactly one existing accepted
 \* edge entering each reachable non-root node
@@ -130,16 +135,21 @@ TreeEdgesOK(G, r, pre, nodes, edges) ==
 \* set into strongly connected components of the unfiltered forward graph
 Plain(o, i) == [out |-> o, inn |-> i, dir |-> "out", rej |-> {}]
 MutualReach(g, u, v) == v \in Reach(g, u) /\ u \in Reach(g, v)
-SCCs(g, members) == {{v \in members : MutualReach(g, u, v)} : u \in members}
+SCCs(g, members) == LET sm == SuccMap(g)
+                        R == [u \in members |-> CloseM(sm, {u})] IN
+                    {{v \in members : v \in R[u] /\ u \in R[v]} : u \in members}
 Flatten(cs) == LET RECURSIVE Fl(_)
                    Fl(k) == IF k > Len(cs) THEN <<>> ELSE cs[k] \o Fl(k + 1)
                IN  Fl(1)
+\* (reach sets are computed once per member, not once per pair: 30-node graphs stay cheap)
 IsSccPartition(g, members, comps) ==
-  LET flat == Flatten(comps) IN
+  LET flat == Flatten(comps)
+      sm == SuccMap(g)
+      R == [u \in members |-> CloseM(sm, {u})]
+      compOf == [u \in members |-> {a \in 1..Len(comps) : u \in SeqSet(comps[a])}] IN
   /\ NoRepeat(flat)                                  \* every node in at most one component, once
   /\ SeqSet(flat) = members                          \* ... and in at least one
   /\ \A a \in 1..Len(comps) : comps[a] # <<>>
   /\ \A u \in members, v \in members :
-        (\E a \in 1..Len(comps) : u \in SeqSet(comps[a]) /\ v \in SeqSet(comps[a]))
-           <=> MutualReach(g, u, v)
+        (compOf[u] \cap compOf[v] # {}) <=> (v \in R[u] /\ u \in R[v])
 =============================================================================
